@@ -596,7 +596,7 @@ def cand_yaml(scn):
 extra_shrinkers = (cand_docs, cand_yaml)
 
 
-def preload() -> None:
+def warm_up() -> None:
     """Imported once by the worker before it forks: children start warm."""
     import _pytest.config  # noqa: F401
     import flask  # noqa: F401
